@@ -166,7 +166,7 @@ def gen_trace(seed, world, tier, mode=None, chunk=None):
     nmax = 6 if tier == "quick" else 10
     if mode is None:
         x = R.random()
-        mode = ("caps" if x < 0.49 else "orth" if x < 0.54 else "abs_thr" if x < 0.58 else "strided" if x < 0.80 else "lu_fail" if x < 0.87
+        mode = ("caps" if x < 0.46 else "rebuf" if x < 0.49 else "orth" if x < 0.54 else "abs_thr" if x < 0.58 else "strided" if x < 0.80 else "lu_fail" if x < 0.87
                 else "utri_zero" if x < 0.94 else "caps_big")
     steps = []
     tol = 10.0 ** -R.choice([2, 4, 6, 8, 10, 12])
@@ -206,6 +206,32 @@ def gen_trace(seed, world, tier, mode=None, chunk=None):
                 _solve_steps(steps, sysd, sc, tol_s, prec, None, storage, jitter, R)
                 if tol_s != tol:
                     _solve_steps(steps, sysd, 0, tol_s, prec, None, storage, jitter, R)
+    elif mode == "rebuf":
+        # the client keeps ONE array for its matrix (and one for its right-hand side) and refills
+        # them in place between solves: a different system of the same size, then the first one
+        # shifted by a multiple of I; on one solver object or on fresh ones.  What a solve returns
+        # and reports must be about the CURRENT contents (identity-keyed memos go stale here).
+        sys1 = gen_system(R, min(nmax, 6))
+        n = sys1["n"]
+        s2 = R.randrange(10 ** 6)
+        sys2 = {"n": n, "family": "generic", "bkind": "gauss",
+                "A": {"gen": "psvd", "m": n, "n": n, "seed": s2,
+                      "sigma": [round_sig(v) for v in logspace_sigma(R, n, 10 ** R.choice([0, 1, 2]))]},
+                "b": {"gen": "gauss", "m": n, "n": 1, "seed": s2 + 1}}
+        sys3 = dict(sys1, A={"gen": "add", "a": sys1["A"], "b": {"gen": "cI", "n": n, "c": float(R.choice([3.0, -2.0, 5.0]))}},
+                    family="generic", bkind="gauss", b={"gen": "gauss", "m": n, "n": 1, "seed": s2 + 2})
+        prec = R.choice(["left_lu", "left_lu", "none"])
+        shared = R.random() < 0.5
+        first_new = None
+        for si_, sy in ((1, sys1), (2, sys2), (3, sys3), (1, sys1)):
+            c = _solve_steps(steps, sy, 0, tol, prec, None, storage, False, R, tagx={"sys": si_})
+            c["args"] = [dict(c["args"][0], buf="A"), dict(c["args"][1], buf="b")]
+            if shared:
+                if first_new is None:
+                    first_new = c["obj"]
+                else:
+                    steps.pop(-2)          # drop the fresh constructor: same solver object throughout
+                    c["obj"] = first_new
     elif mode == "orth":
         # directed at loss of orthogonality in the Arnoldi basis: the largest systems of the
         # tier at the top of the conditioning range and the tightest tolerances, default cap
@@ -506,7 +532,7 @@ class Hooks(BaseHooks):
         for r in self.results:
             if r["hard"] or r["cap"] is not None or r["bzero"]:
                 continue
-            sysid = (r["tags"].get("family"), r["n"], r["tol"], r["tags"].get("storage"))
+            sysid = (r["tags"].get("family"), r["n"], r["tol"], r["tags"].get("storage"), r["tags"].get("sys"))
             base.setdefault(sysid, []).append(r)
         for sysid, rs in base.items():
             ref = rs[0]
